@@ -2,6 +2,7 @@
  * (A separate program: MiniMessage.c and MicroMessage.c define the same global symbols.)
  *   U <hex>                      MMUnflattenMessage the bytes, MMFlattenMessage the result       -> K <hex> | E <why>
  *   B M <what> <nfields> ...     build the content natively with MMPut*Field(), flatten          -> K <hex> | E <why>
+ *   D <v> M <what> <nfields> ... the same content through the codec's own mutating calls, detour v = 1..7 (see build)  -> K <hex> | E <why>
  *   G <seed> M ... M ...         build each content natively, MGAddOutgoingMessage, MGDoOutput in random slices -> K <hex of the stream>
  *   R <seed> <hex of a stream>   MGDoInput in random slices, flatten every Message received      -> K <hex> <hex> ...
  *   Q                            quit
@@ -36,43 +37,55 @@ static uint32 u32at(const uint8 * b) {return ((uint32)b[0]) | (((uint32)b[1]) <<
 static uint64 u64at(const uint8 * b) {return ((uint64)u32at(b)) | (((uint64)u32at(b+4)) << 32);}
 static float f32at(const uint8 * b) {uint32 v = u32at(b); float f; memcpy(&f, &v, 4); return f;}
 
-static MMessage * build(char ** p, const char ** why)
+/* ---- native construction.  g_detour = 0: every field is put once.  1..7: every field reaches the Message through the mini codec's own MUTATING calls
+ * (the same content must come out; the documentation says of each of them only that the named field is renamed / moved / copied / replaced):
+ *   1 put under a LONGER temporary name, MMRenameField to the name      2 put under a SHORTER temporary name, MMRenameField
+ *   3 put under another name of the SAME length, MMRenameField          4 junk field under the name, MMRemoveField, put
+ *   5 junk field of another type / count under the name, put again (replace-by-put)
+ *   6 built in a scratch MMessage, MMMoveField (even fields) / MMCopyField (odd fields) into the Message
+ *   7 fixed-size kinds with 2+ items: put with room for ONE item, then put again with retainOldData = MTrue and the full count */
+static int g_detour = 0;
+static MMessage * build(char ** p, const char ** why);
+
+/* puts field (name) with the n items that follow in the text into m; 0 on success */
+static int put_field(MMessage * m, const char * name, uint32 tc, uint32 n, char ** p, const char ** why)
 {
-   char * t = tok(p); MMessage * m; uint32 nf, i;
-   if ((t == NULL)||(strcmp(t, "M") != 0)) {*why = "syntax"; return NULL;}
-   m = MMAllocMessage((uint32) strtoul(tok(p), NULL, 16));
-   nf = (uint32) strtoul(tok(p), NULL, 10);
-   for (i=0; i<nf; i++)
+   uint32 j;
+   if (tc == B_MESSAGE_TYPE)
    {
-      uint32 nameLen, tc, n, j; uint8 * name = unhex(tok(p), &nameLen);
-      tc = (uint32) strtoul(tok(p), NULL, 16); n = (uint32) strtoul(tok(p), NULL, 10);
-      if (tc == B_MESSAGE_TYPE)
+      MMessage ** a = MMPutMessageField(m, MFalse, name, n);
+      if (a == NULL) {*why = "MMPutMessageField"; return 1;}
+      for (j=0; j<n; j++) {a[j] = build(p, why); if (a[j] == NULL) return 1;}
+      return 0;
+   }
+   else
+   {
+      void * arr = NULL; MByteBuffer ** bufs = NULL;
+      uint8 ** items = (uint8 **) malloc(sizeof(uint8 *) * (n + 1)); uint32 * lens = (uint32 *) malloc(sizeof(uint32) * (n + 1));
+      const int fixed = ((tc == B_BOOL_TYPE)||(tc == B_INT8_TYPE)||(tc == B_INT16_TYPE)||(tc == B_INT32_TYPE)||(tc == B_INT64_TYPE)||(tc == B_FLOAT_TYPE)||(tc == B_DOUBLE_TYPE)||(tc == B_POINT_TYPE)||(tc == B_RECT_TYPE));
+      int pass; const int passes = ((g_detour == 7)&&(n >= 2)&&(fixed)) ? 2 : 1;
+      for (j=0; j<n; j++) items[j] = unhex(tok(p), &lens[j]);
+      for (pass=0; pass<passes; pass++)
       {
-         MMessage ** a = MMPutMessageField(m, MFalse, (const char *) name, n);
-         if (a == NULL) {*why = "MMPutMessageField"; return NULL;}
-         for (j=0; j<n; j++) {a[j] = build(p, why); if (a[j] == NULL) return NULL;}
-      }
-      else
-      {
-         void * arr = NULL; MByteBuffer ** bufs = NULL;
+         const uint32 cnt = ((passes == 2)&&(pass == 0)) ? 1 : n; const MBool retain = (pass == 1) ? MTrue : MFalse; const uint32 from = (pass == 1) ? 1 : 0;
          switch(tc)
          {
-            case B_BOOL_TYPE:   arr = MMPutBoolField(m, MFalse, (const char *) name, n); break;
-            case B_INT8_TYPE:   arr = MMPutInt8Field(m, MFalse, (const char *) name, n); break;
-            case B_INT16_TYPE:  arr = MMPutInt16Field(m, MFalse, (const char *) name, n); break;
-            case B_INT32_TYPE:  arr = MMPutInt32Field(m, MFalse, (const char *) name, n); break;
-            case B_INT64_TYPE:  arr = MMPutInt64Field(m, MFalse, (const char *) name, n); break;
-            case B_FLOAT_TYPE:  arr = MMPutFloatField(m, MFalse, (const char *) name, n); break;
-            case B_DOUBLE_TYPE: arr = MMPutDoubleField(m, MFalse, (const char *) name, n); break;
-            case B_POINT_TYPE:  arr = MMPutPointField(m, MFalse, (const char *) name, n); break;
-            case B_RECT_TYPE:   arr = MMPutRectField(m, MFalse, (const char *) name, n); break;
-            case B_STRING_TYPE: arr = bufs = MMPutStringField(m, MFalse, (const char *) name, n); break;
-            default:            arr = bufs = MMPutDataField(m, MFalse, tc, (const char *) name, n); break;
+            case B_BOOL_TYPE:   arr = MMPutBoolField(m, retain, name, cnt); break;
+            case B_INT8_TYPE:   arr = MMPutInt8Field(m, retain, name, cnt); break;
+            case B_INT16_TYPE:  arr = MMPutInt16Field(m, retain, name, cnt); break;
+            case B_INT32_TYPE:  arr = MMPutInt32Field(m, retain, name, cnt); break;
+            case B_INT64_TYPE:  arr = MMPutInt64Field(m, retain, name, cnt); break;
+            case B_FLOAT_TYPE:  arr = MMPutFloatField(m, retain, name, cnt); break;
+            case B_DOUBLE_TYPE: arr = MMPutDoubleField(m, retain, name, cnt); break;
+            case B_POINT_TYPE:  arr = MMPutPointField(m, retain, name, cnt); break;
+            case B_RECT_TYPE:   arr = MMPutRectField(m, retain, name, cnt); break;
+            case B_STRING_TYPE: arr = bufs = MMPutStringField(m, retain, name, cnt); break;
+            default:            arr = bufs = MMPutDataField(m, retain, tc, name, cnt); break;
          }
-         if (arr == NULL) {*why = "MMPut*Field"; return NULL;}
-         for (j=0; j<n; j++)
+         if (arr == NULL) {*why = "MMPut*Field"; return 1;}
+         for (j=from; j<cnt; j++)
          {
-            uint32 len; uint8 * b = unhex(tok(p), &len);
+            const uint8 * b = items[j]; const uint32 len = lens[j];
             switch(tc)
             {
                case B_BOOL_TYPE:   ((MBool *) arr)[j] = b[0] ? MTrue : MFalse; break;
@@ -85,12 +98,64 @@ static MMessage * build(char ** p, const char ** why)
                case B_POINT_TYPE:  {MPoint q; q.x = f32at(b); q.y = f32at(b+4); ((MPoint *) arr)[j] = q;} break;
                case B_RECT_TYPE:   {MRect q; q.left = f32at(b); q.top = f32at(b+4); q.right = f32at(b+8); q.bottom = f32at(b+12); ((MRect *) arr)[j] = q;} break;
                case B_STRING_TYPE: bufs[j] = MBStrdupByteBuffer((const char *) b); break;
-               default:            bufs[j] = MBAllocByteBuffer(len, MFalse); if (bufs[j] == NULL) {*why = "MBAllocByteBuffer"; return NULL;} if (len) memcpy(&bufs[j]->bytes, b, len); break;
+               default:            bufs[j] = MBAllocByteBuffer(len, MFalse); if (bufs[j] == NULL) {*why = "MBAllocByteBuffer"; return 1;} if (len) memcpy(&bufs[j]->bytes, b, len); break;
             }
-            free(b);
          }
       }
-      free(name);
+      for (j=0; j<n; j++) free(items[j]);
+      free(items); free(lens);
+      return 0;
+   }
+}
+
+static int has_field(const MMessage * m, const char * name) {return MMGetFieldInfo(m, name, B_ANY_TYPE, NULL, NULL) == CB_NO_ERROR;}
+
+static MMessage * build(char ** p, const char ** why)
+{
+   char * t = tok(p); MMessage * m; uint32 nf, i;
+   if ((t == NULL)||(strcmp(t, "M") != 0)) {*why = "syntax"; return NULL;}
+   m = MMAllocMessage((uint32) strtoul(tok(p), NULL, 16));
+   nf = (uint32) strtoul(tok(p), NULL, 10);
+   for (i=0; i<nf; i++)
+   {
+      uint32 nameLen, tc, n; uint8 * nameBytes = unhex(tok(p), &nameLen); const char * name = (const char *) nameBytes;
+      char tmp[512]; int d = g_detour;
+      tc = (uint32) strtoul(tok(p), NULL, 16); n = (uint32) strtoul(tok(p), NULL, 10);
+      if (nameLen > 400) d = 0;
+      /* the temporary name of the rename detours; fall back to the longer one when the wanted one is impossible or taken */
+      if ((d == 2)&&(nameLen >= 1)) strcpy(tmp, (name[0] == 2) ? "\003" : "\002");
+      else if ((d == 3)&&(nameLen >= 1)) {strcpy(tmp, name); tmp[0] = (char)(tmp[0] ^ 1); if (tmp[0] == 0) tmp[0] = 3;}
+      else if ((d >= 1)&&(d <= 3)) {snprintf(tmp, sizeof(tmp), "%s_a_longer_temporary_name", name); d = 1;}
+      if ((d >= 1)&&(d <= 3)&&((has_field(m, tmp))||(strcmp(tmp, name) == 0))) {snprintf(tmp, sizeof(tmp), "%s_a_longer_temporary_name", name); d = 1;}
+      switch(d)
+      {
+         case 1: case 2: case 3:
+            if (put_field(m, tmp, tc, n, p, why)) return NULL;
+            if (MMRenameField(m, tmp, name) != CB_NO_ERROR) {*why = "MMRenameField"; return NULL;}
+         break;
+         case 4:
+            if (MMPutInt8Field(m, MFalse, name, 3) == NULL) {*why = "MMPutInt8Field"; return NULL;}
+            if (MMRemoveField(m, name) != CB_NO_ERROR) {*why = "MMRemoveField"; return NULL;}
+            if (put_field(m, name, tc, n, p, why)) return NULL;
+         break;
+         case 5:
+            if (tc == B_STRING_TYPE) {if (MMPutInt32Field(m, MFalse, name, n + 2) == NULL) {*why = "MMPutInt32Field"; return NULL;}}
+            else {MByteBuffer ** jb = MMPutStringField(m, MFalse, name, 2); if (jb == NULL) {*why = "MMPutStringField"; return NULL;} jb[0] = MBStrdupByteBuffer("junk"); jb[1] = MBStrdupByteBuffer("");}
+            if (put_field(m, name, tc, n, p, why)) return NULL;
+         break;
+         case 6:
+         {
+            MMessage * scratch = MMAllocMessage(99);
+            if (put_field(scratch, name, tc, n, p, why)) return NULL;
+            if (((i & 1) ? MMCopyField(scratch, name, m) : MMMoveField(scratch, name, m)) != CB_NO_ERROR) {*why = "MMMoveField / MMCopyField"; return NULL;}
+            MMFreeMessage(scratch);
+         }
+         break;
+         default:
+            if (put_field(m, name, tc, n, p, why)) return NULL;
+         break;
+      }
+      free(nameBytes);
    }
    return m;
 }
@@ -131,8 +196,9 @@ int main(void)
                if (memcmp(o + fs, "\xEE\xEE\xEE\xEE", 4) != 0) printf("E MMFlattenMessage wrote past MMGetFlattenedSize\n"); else {printf("K "); puthex(o, fs); printf("\n");} free(o);}
          MMFreeMessage(m); free(b);
       }
-      else if (strcmp(cmd, "B") == 0)
+      else if ((strcmp(cmd, "B") == 0)||(strcmp(cmd, "D") == 0))
       {
+         if (cmd[0] == 'D') g_detour = atoi(tok(&p)); else g_detour = 0;
          const char * why = "?"; MMessage * m = build(&p, &why);
          if (m == NULL) printf("E native build failed: %s\n", why);
          else {const uint32 fs = MMGetFlattenedSize(m); uint8 * o = (uint8 *) malloc(fs + 16); MMFlattenMessage(m, o); printf("K "); puthex(o, fs); printf("\n"); free(o); MMFreeMessage(m);}
@@ -140,7 +206,7 @@ int main(void)
       else if (strcmp(cmd, "G") == 0)
       {
          Stream s; MMessageGateway * gw = MGAllocMessageGateway(); int bad = 0, idle = 0;
-         memset(&s, 0, sizeof(s)); s.rnd = (uint32) strtoul(tok(&p), NULL, 10);
+         memset(&s, 0, sizeof(s)); s.rnd = (uint32) strtoul(tok(&p), NULL, 10); g_detour = 0;
          while ((p != NULL)&&(bad == 0))
          {
             const char * why = "?"; MMessage * m;
